@@ -53,7 +53,7 @@ na_pure = {
  "C16":"pure function of one configuration file; invalid configs at reload time are part of C17 (DESIGN.md §6)",
 }
 engines = [
- {"name":"simrt+simgo","path":"sim/simrt, tools/cmd/simgo","kind_free_text":"deterministic scheduler inside a testing/synctest bubble (fake clock, quiescence) + AST instrumenter that routes every goroutine start, channel operation, select, lock, atomic, sleep and map iteration of a scratch copy of /repo through the scheduler; one seed = one replayable execution"},
+ {"name":"simrt+simgo","path":"sim/simrt, tools/cmd/simgo","kind_free_text":"deterministic scheduler inside a testing/synctest bubble (fake clock, quiescence) + AST instrumenter that routes every goroutine start, channel operation, select, lock, atomic, sleep and map iteration of a scratch copy of /repo through the scheduler, and makes every larger function entry a preemption point in a seeded part of the runs; one seed = one replayable execution"},
  {"name":"world-B","path":"harness/worldb.go","kind_free_text":"real baseoutput client worker/session/acknowledger against a scripted upstream connection with fault scripts; history oracle vs reference model"},
  {"name":"world-C","path":"harness/worldc.go, sim/simfs","kind_free_text":"real hybrid buffer + util/files.go on an in-memory disk with per-operation fault hook and process-kill model; producer, scripted consumer, restart generations"},
  {"name":"world-E","path":"harness/worlde.go, sim/simnet","kind_free_text":"real tcplistener + multiLineReader + NetConnWrapper on in-memory TCP with simulator-owned segmentation and timing; reference framer oracle"},
